@@ -17,8 +17,9 @@
   The heralds are a list in *declaration order*; every definition reads it through `List.lookup`/`sum`, and
   `Props/C04.lean` proves that the order is irrelevant.  Detectors: section "detector stage" below.
 
-  Assumed / not modelled (recorded in the evidence): the probability-trimming thresholds of
-  `_preprocess_svd` and `list_tensor_product` (the check runs at `precision = 0`, leaving `min_p = 1e-16`);
+  This file is the model at `precision = 0` (no threshold bites but `min_p = 1e-16`).  The probability-trimming
+  thresholds of `_preprocess_svd` and `list_tensor_product` are in `Model/C04Trim.lean`, a reused object whose selection
+  changes in `Model/C04Session.lean`, superposed inputs (`_probs_svd_generic`) in `Model/C04Generic.lean`.
   "the dict is empty" is modelled as "the accumulated mass is 0".
 -/
 import PercevalModel.Found.SimSpec
